@@ -37,7 +37,7 @@ REQUIRED_COUNTERS = {'strings_compared': 3000, 'gfortran_confirmed_frontend_read
 ASSUMPTIONS = ['the FP frontend tree of `x = s` is the reference meaning of s (property statement); its reading is '
                'cross-checked against the generating grammar for every string and against gfortran on a sample',
                'strings where these references disagree among themselves are discarded and counted (inconclusive above 1 %)']
-BUDGET_S = {'quick': 300, 'thorough': 2400}
+BUDGET_S = {'quick': 600, 'thorough': 3000}
 CASE_TIMEOUT_S = 300
 NSTR = 40
 NVAL = 8
@@ -64,6 +64,8 @@ def values_of(ev, ast, vals):
     for v in vals:
         try:
             out.append(ev(ast, v))
+        except X.Overflow:
+            out.append(FRAGILE)      # integer overflow depends on the association order: no opinion
         except X.Undefined:
             out.append(None)
         except X.Fragile:
